@@ -14,7 +14,7 @@ def _only_hand_complaints(c):
 CFG = {
     "harness": ["v1"],
     "functional": ["C16.copy"],
-    "required_classes": ["dc-references-only-in-embedded-members", "dc-dependency-path-ends-with-the-package-path", "model-copy", "model-shares", "compile", "copies", "selection", "dc-pointer", "dc-slice", "dc-map", "dc-array", "dc-array-of-references", "dc-cross-package", "dc-named-interface", "dc-hand-written", "dc-package-tag", "dc-no-package-tag", "dc-type-opt-in", "dc-type-opt-out", "dc-self-pointer", "dc-fixed-shapes", "sig:hand-written-inside-assignable", "dc-type-opt-in-detached", "dc-hand-written-assignable", "several-input-packages-paths-and-names-sort-differently", "dc-value-implementation-of-interface", "regenerated-over-longer-output"],
+    "required_classes": ["dc-struct-with-interface-field-in-nested-positions", "dc-references-only-in-embedded-members", "dc-dependency-path-ends-with-the-package-path", "model-copy", "model-shares", "compile", "copies", "selection", "dc-pointer", "dc-slice", "dc-map", "dc-array", "dc-array-of-references", "dc-cross-package", "dc-named-interface", "dc-hand-written", "dc-package-tag", "dc-no-package-tag", "dc-type-opt-in", "dc-type-opt-out", "dc-self-pointer", "dc-fixed-shapes", "sig:hand-written-inside-assignable", "dc-type-opt-in-detached", "dc-hand-written-assignable", "several-input-packages-paths-and-names-sort-differently", "dc-value-implementation-of-interface", "regenerated-over-longer-output"],
     "signatures": {"array-of-references-field": has_class("sig:array-of-references-field"),
                    # only when the hand-written-call count is the ONLY complaint about that type
                    "hand-written-inside-assignable": lambda c: "sig:hand-written-inside-assignable" in c["classes"] and c["entry"] == "C16.copies!" and _only_hand_complaints(c)},
